@@ -731,7 +731,7 @@ def rule_lookup(c, R, F):
 def rule_original_cache(c, R, F):
     """getOriginalPathAndLineFromSourceMap: the negative / positive cache protocol"""
     jf = F.jf
-    gets = [n for n in jsast.walk(jf.program) if n.get("type") == "CallExpression" and chain(n) == ["originalSourceMapsCache", "get"]]
+    gets = [n for n in jsast.walk(jf.program) if n.get("type") == "CallExpression" and chain(n) == [jsast.cache_roles(jf)["original"], "get"]]
     c.floor(R, "originalSourceMapsCache.get sites", len(gets), 1)
     if not gets:
         return
@@ -754,7 +754,7 @@ def rule_original_cache(c, R, F):
                 JF.REN[0] = old
             if g is not None and holder and t is top and g == BF.atom("undef:" + holder):
                 return MISS
-        if e.get("type") == "CallExpression" and chain(e) == ["originalSourceMapsCache", "has"]:
+        if e.get("type") == "CallExpression" and chain(e) == [jsast.cache_roles(jf)["original"], "has"]:
             return BF.neg(MISS)
         return None
 
@@ -785,7 +785,7 @@ def rule_original_cache(c, R, F):
             for x in rd:
                 got |= reach.arg_text(x, args(x)[0])
             c.expect(got == {ps[0]}, R, R + "/original/load-arg", jf.loc(g), "reads the file that was asked for", "reads %s, not `%s`" % (sorted(got), ps[0]))
-    sets = [n for n in jsast.walk(jf.program) if n.get("type") == "CallExpression" and chain(n) == ["originalSourceMapsCache", "set"]]
+    sets = [n for n in jsast.walk(jf.program) if n.get("type") == "CallExpression" and chain(n) == [jsast.cache_roles(jf)["original"], "set"]]
     body_sets = [n for n in sets if not in_handler(n)]
     c.floor(R, "fills of the original-map cache", len(body_sets), 1)
     if body_sets:
@@ -1290,6 +1290,47 @@ def rule_map_table(c, R, nsm, sm):
             ids = [jsast.ident_name(e) for e in el]
             ok = ids[1] == names[0] and ids[3] == names[2] and ids[4] == names[3] and all(d[2] == "+=" for d in (decodes[0], decodes[2], decodes[3], decodes[4]))
             c.expect(ok, R, R + "/segment-layout", jf.loc(n), "segment = [line, column(field 1), source, original line(field 3), original column(field 4), name], fields accumulated with +=", "the stored segment is %s but the decoded fields are %s (relative values, in this order): original line and column end up in the wrong slots or are not accumulated" % (ids, names))
+            # the source of a segment is an entry of the payload's `sources` list as it stands there: the
+            # rewriter writes resolved paths (the original map's sourceRoot already applied by the library)
+            # and no sourceRoot of its own, so a reader that prefixes or otherwise edits the entries reports
+            # paths that do not exist
+            def verbatim(e, depth=0, top=top):
+                e = JF.unparen(e)
+                if depth > 5 or e is None:
+                    return False
+                if e.get("type") == "MemberExpression" and e["property"].get("type") == "Computed":
+                    obj = JF.unparen(e["object"])
+                    if obj.get("type") == "MemberExpression" and (obj.get("property") or {}).get("value") == "sources":
+                        return True
+                    if obj.get("type") == "Identifier":
+                        arr = obj["value"]
+                        vals = []
+                        for x in jsast.walk(top):
+                            if x.get("type") != "CallExpression":
+                                continue
+                            ax = args(x)
+                            if chain(x)[-1:] == ["ArrayPrototypePush"] and len(ax) == 2 and jsast.ident_name(ax[0]) == arr:
+                                vals.append(ax[1])
+                            elif chain(x) == [arr, "push"] and len(ax) == 1:
+                                vals.append(ax[0])
+                        ds = F.defs(top, arr)
+                        if vals:
+                            return all(verbatim(v, depth + 1, top) for v in vals)
+                        # the list handed back by a local helper: what that helper puts into the list it returns
+                        if len(ds) == 1 and JF.unparen(ds[0]).get("type") == "CallExpression" and len(chain(JF.unparen(ds[0]))) == 1 and chain(JF.unparen(ds[0]))[0] in F.decls:
+                            h_ = F.decls[chain(JF.unparen(ds[0]))[0]]
+                            rs_ = [x for x in jsast.walk(h_) if x.get("type") == "ReturnStatement" and F.enclosing_fn(x) is h_]
+                            if len(rs_) == 1 and jsast.ident_name(rs_[0].get("argument")):
+                                fake = {"type": "MemberExpression", "object": rs_[0]["argument"], "property": {"type": "Computed", "expression": {"type": "NumericLiteral", "value": 0}}}
+                                return verbatim(fake, depth + 1, h_)
+                        return bool(ds) and all(JF.unparen(d_).get("type") == "MemberExpression" and (JF.unparen(d_).get("property") or {}).get("value") == "sources" for d_ in ds)
+                    return False
+                if e.get("type") == "Identifier":
+                    ds = F.defs(top, e["value"])
+                    return bool(ds) and all(verbatim(d_, depth + 1, top) for d_ in ds)
+                return False
+
+            c.expect(len(el) > 2 and el[2] is not None and verbatim(el[2]), R, R + "/source-verbatim", jf.loc(n), "the source of a segment is an entry of the payload's `sources`, unedited", "the source stored with a segment is not an entry of the payload's `sources` list as it stands (%s): a prefix such as sourceRoot is applied a second time - the rewriter's maps carry resolved paths" % (JF.text(el[2]) if len(el) > 2 and el[2] is not None else "?"))
             # the generated line: incremented per `;`, the column reset with it
             line_v, col_v = ids[0], ids[1]
             resets = [x for x in jsast.walk(top) if x.get("type") == "AssignmentExpression" and x["operator"] == "=" and jsast.ident_name(x["left"]) == col_v and JF.unparen(x["right"]).get("value") == 0]
